@@ -19,6 +19,7 @@ type verifOpen struct {
 
 type verifSandbox struct {
 	p      *interp
+	cfg    *Config
 	opens  []verifOpen
 	noExec, noWrites, noReads bool
 }
@@ -36,6 +37,7 @@ func verifNewSandbox() *verifSandbox {
 			return verifNewFile(nil), nil
 		},
 	}
+	sb.cfg = cfg
 	err := sb.p.setExecuteConfig(cfg)
 	verifAssert(err == nil, "setExecuteConfig failed")
 	return sb
@@ -138,9 +140,7 @@ func (sb *verifSandbox) runBegin(stmt string, name string) error {
 	prog := verifParse(`BEGIN { ` + stmt + ` }`)
 	p := newInterp(prog)
 	// keep the sandbox configuration and stream tables of sb.p, run the new program's code
-	p.output, p.errorOutput, p.stdin = sb.p.output, sb.p.errorOutput, sb.p.stdin
-	p.noExec, p.noFileWrites, p.noFileReads = sb.p.noExec, sb.p.noFileWrites, sb.p.noFileReads
-	p.openFile, p.shellCommand = sb.p.openFile, sb.p.shellCommand
+	verifAssert(p.setExecuteConfig(sb.cfg) == nil, "setExecuteConfig failed")
 	p.inputStreams, p.outputStreams, p.scanners = sb.p.inputStreams, sb.p.outputStreams, sb.p.scanners
 	p.globals[p.scalarIndexes["NAME"]] = str(name)
 	sb.p = p
